@@ -10,8 +10,10 @@ package checks
  */
 
 import (
+	"bytes"
 	"context"
 	"crypto/ecdsa"
+	"crypto/ed25519"
 	"crypto/elliptic"
 	"crypto/rand"
 	"crypto/tls"
@@ -89,6 +91,38 @@ func c13Impostor(orig *x509.Certificate) tls.Certificate {
 	}
 	leaf, _ := x509.ParseCertificate(der)
 	return tls.Certificate{Certificate: [][]byte{der}, PrivateKey: key, Leaf: leaf}
+}
+
+// c13OddCert makes a certificate whose public-key algorithm Go cannot handle
+// (an Ed25519 certificate relabelled as Ed448 in the DER): a chain may carry
+// such a thing, and a verifier that has to look at every certificate meets it.
+func c13OddCert() *x509.Certificate {
+	pub, priv, err := ed25519.GenerateKey(rand.Reader)
+	if nil != err {
+		panic(err)
+	}
+	tmpl := x509.Certificate{SerialNumber: big.NewInt(77), Subject: pkix.Name{CommonName: "odd"}, NotBefore: time.Now().Add(-time.Hour), NotAfter: time.Now().Add(time.Hour)}
+	der, err := x509.CreateCertificate(rand.Reader, &tmpl, &tmpl, pub, priv)
+	if nil != err {
+		panic(err)
+	}
+	der = bytes.ReplaceAll(der, []byte{0x06, 0x03, 0x2b, 0x65, 0x70}, []byte{0x06, 0x03, 0x2b, 0x65, 0x71})
+	c, err := x509.ParseCertificate(der)
+	if nil != err {
+		panic(fmt.Sprintf("the relabelled certificate does not parse: %v", err))
+	}
+	return c
+}
+
+// c13SlashKey makes certificates until one's pin begins with '/' (a base64
+// digit like any other; about one key in 64).
+func c13SlashKey() (tls.Certificate, *x509.Certificate) {
+	for {
+		c, l := c13Cert("server-s")
+		if strings.HasPrefix(hworld.PinOf(l), "/") {
+			return c, l
+		}
+	}
 }
 
 func c13Start(name string, cert tls.Certificate, extra ...*x509.Certificate) *c13Server {
@@ -183,8 +217,15 @@ func c13NewWorld() *c13World {
 	w.servers["B"] = c13Start("B", cb)
 	w.servers["C"] = c13Start("C", cc, la)          /* chain: leaf C, then A's certificate */
 	w.servers["I"] = c13Start("I", c13Impostor(la)) /* A's certificate in everything but the key */
+	cu, _ := c13Cert("server-u")
+	w.servers["U"] = c13Start("U", cu, c13OddCert()) /* chain: leaf U, then a certificate with a key Go cannot marshal */
+	cs, _ := c13SlashKey()
+	w.servers["S"] = c13Start("S", cs) /* a key whose pin begins with '/' */
 	pa, pb := hworld.PinOf(w.servers["A"].chain[0]), hworld.PinOf(w.servers["B"].chain[0])
+	ps := hworld.PinOf(w.servers["S"].chain[0])
 	w.pins = map[string]string{
+		"pinS":            ps,
+		"prefixed-pinS":   "sha256//" + ps,
 		"pinA":            pa,
 		"pinB":            pb,
 		"prefixed-pinA":   "sha256//" + pa,
@@ -197,7 +238,7 @@ func c13NewWorld() *c13World {
 		"pinA-whitespace": pa + " ",
 		"none":            "",
 	}
-	w.pinKey = map[string]string{"pinA": "A", "pinB": "B", "prefixed-pinA": "A"}
+	w.pinKey = map[string]string{"pinA": "A", "pinB": "B", "prefixed-pinA": "A", "pinS": "S", "prefixed-pinS": "S"}
 	return w
 }
 
@@ -298,7 +339,7 @@ func c13Snapshot() c13Defaults {
 
 func c13(r *ev.Result, tier string) {
 	quick := isQuick(tier)
-	r.Rule = "(a) every (server in {A, B, C=chain[C,A], I=a copy of A's certificate around another key}, fingerprint spelling) pair over 11 spellings; (b) every history of <=3 calls over {pinA->A, pinA->B, pinB->B, pinB->A, none->A, pinA->C, pinA->I}; " +
+	r.Rule = "(a) every (server in {A, B, C=chain[C,A], I=a copy of A's certificate around another key, U=chain[U, a certificate whose key Go cannot marshal], S=a key whose pin begins with '/'}, fingerprint spelling) pair over 11 spellings; (b) every history of <=3 calls over {pinA->A, pinA->B, pinB->B, pinB->A, none->A, pinA->C, pinA->I}; " +
 		"(c) every interleaving of 2 (thorough 3) concurrent calls over those configurations at the scheduling points Output/SetInput/Go (stateless DFS, all schedules); states = distinct (configuration set, schedule prefix) visited, " +
 		"transitions = scheduling steps, traces = complete executions against real TLS servers"
 	w := c13NewWorld()
@@ -321,7 +362,7 @@ func c13(r *ev.Result, tier string) {
 	for k := range w.pins {
 		classes = append(classes, k)
 	}
-	for _, srv := range []string{"A", "B", "C", "I"} {
+	for _, srv := range []string{"A", "B", "C", "I", "U", "S"} {
 		for _, pc := range classes {
 			c := c13Call{Server: srv, Pin: pc}
 			i := id()
